@@ -219,7 +219,8 @@ func (e *exporter) value(n adt.Value, a ...adt.Conjunct) (result ast.Expr) {
 
 		result = b.expr(e.ctx)
 		if result == nil {
-			a = x.Values
+			// Sort a copy: x is shared with every other user of the value.
+			a = slices.Clone(x.Values)
 		}
 
 		slices.SortStableFunc(a, cmpLeafNodes)
